@@ -61,6 +61,7 @@ type ServerOpts struct {
 	Assigner         jrpc2.Assigner // default: the rig's Handlers
 	Faults           []vchan.Fault  // installed on the server's end before Start
 	Spin             int            // Gosched iterations inside each channel operation (default 2)
+	RejectLF         bool           // the server's end refuses records containing a line feed (like channel.Line)
 	Validator        func([]byte) error
 	RPCLog           jrpc2.RPCLogger
 }
@@ -89,6 +90,7 @@ func NewServerRig(c *vt.Ctx, ctrl *sched.Controller, o ServerOpts) *ServerRig {
 	r.Mon = &Mon{C: c, Log: log, FailOnDiscipline: o.FailOnDiscipline}
 	r.Peer, r.End = vchan.NewPair("cli", "srv", r.Mon)
 	r.End.PipeLike = o.PipeLike
+	r.End.RejectLF = o.RejectLF
 	for _, f := range o.Faults {
 		r.End.AddFault(f)
 	}
